@@ -67,11 +67,19 @@ def odd_name(rng, prefix=""):
     return prefix + "ZZ" + body if not prefix else prefix + body
 
 
+def reserved_name(rng):
+    """Tag names that are words of the implementation language (keywords, built-ins, dunder-free special names): to OFX they are
+    names like any other.  (None of them is an HTML void element: the "xml" text form is written by ET.tostring(method="html"),
+    which leaves the end tag of INPUT, LINK, ... out.)"""
+    return rng.choice(["CLASS", "PASS", "RETURN", "IN", "FOR", "WITH", "GLOBAL", "IMPORT", "LAMBDA", "NONE", "TRUE", "DEF", "DEL", "IS", "NOT", "OR", "AND", "TRY",
+                       "SELF", "TYPE", "LIST", "DICT", "ID", "PRINT", "EVAL", "EXEC", "OBJECT", "SUPER", "ELEMENTS", "SPEC"])
+
+
 def make_insertion(kind, rng, parent_elem, parent_cls, classes):
     """-> ET.Element to insert, or None when the kind is not applicable here."""
     decl = declared_tags(parent_cls) | RENAMED
     if kind == "unknown-data":
-        return leaf(rng.choice(["ZZUNKNOWN", "XMEMO2", "Q9", "NEWTAG", odd_name(rng), odd_name(rng)]), rng.choice(["text", "1", "a&b", "20200101"]))
+        return leaf(rng.choice(["ZZUNKNOWN", "XMEMO2", "Q9", "NEWTAG", odd_name(rng), odd_name(rng), reserved_name(rng)]), rng.choice(["text", "1", "a&b", "20200101"]))
     if kind == "unknown-named-like-python-attribute":
         # an undeclared tag whose lower-cased name happens to be an attribute of the model class (list methods,
         # convenience properties, machinery): it is still just an unknown tag
@@ -85,7 +93,7 @@ def make_insertion(kind, rng, parent_elem, parent_cls, classes):
         e.append(leaf("CODE", "0"))
         return e
     if kind == "unknown-empty":
-        return ET.Element(rng.choice(["ZZEMPTY", "XAGG", odd_name(rng)]))
+        return ET.Element(rng.choice(["ZZEMPTY", "XAGG", odd_name(rng), reserved_name(rng)]))
     if kind == "unknown-agg-deep":
         # an extension nested far deeper than anything OFX itself defines (the text forms go through the tokenizer, too)
         e = ET.Element("ZZDEEP")
@@ -105,7 +113,7 @@ def make_insertion(kind, rng, parent_elem, parent_cls, classes):
                 return e
         return None
     if kind == "unknown-agg":
-        e = ET.Element(rng.choice(["ZZAGG", odd_name(rng)]))
+        e = ET.Element(rng.choice(["ZZAGG", odd_name(rng), reserved_name(rng)]))
         e.append(leaf("TRNUID", "1"))
         st = ET.SubElement(e, "STATUS")
         st.append(leaf("CODE", "0"))
@@ -130,7 +138,8 @@ def make_insertion(kind, rng, parent_elem, parent_cls, classes):
     if kind == "known-elsewhere-agg-broken":
         # a tag that names a model class somewhere else in OFX, with content that class would NOT accept (empty, incomplete,
         # foreign): here it is just an unknown aggregate - nobody has any business converting it
-        for name in rng.sample(["STATUS", "STMTTRN", "BAL", "LEDGERBAL", "BANKACCTFROM", "CURRENCY", "INVPOSLIST", "SONRS", "FI", "SECID"], 10):
+        # (incl. the root's own name: a vendor wrapper that quotes a whole document)
+        for name in rng.sample(["STATUS", "STMTTRN", "BAL", "LEDGERBAL", "BANKACCTFROM", "CURRENCY", "INVPOSLIST", "SONRS", "FI", "SECID", "OFX", "OFX"], 12):
             if name not in decl and name != parent_elem.tag:
                 e = ET.Element(name)
                 shape = rng.choice(["empty", "foreign", "incomplete", "misordered"])
